@@ -270,7 +270,7 @@ class CallEngine(Engine):
         nontrivial = nontrivial or self.nontrivial(ctx, regs_by_sel)
       tags.append('depth%d' % len(ctx['scope']))
       tags.append('err:' + ctx['error'].split(':')[0] if 'error' in ctx else 'ok')
-    fails = m.readback_fails() + fails
+    fails = m.readback_fails() + m.constant_fails() + fails
     return {'obs': obs, 'fails': fails[:3], 'nontrivial': nontrivial, 'tags': tags}
 
   def check(self, ctx, regs_by_sel, own, m):
